@@ -49,9 +49,9 @@ type C16Inner struct {
 
 type C16Other struct {
 	Name string `valid:"to=1~3|tag_other_name" alt:"phone|alt_other_name"`
-	Code string
+	Code string `valid:"either=9"`
 	Age  int    `valid:"ge=2|tag_other_age" alt:"lt=4|alt_other_age"`
-	Tel  string `valid:"phone|tag_other_phone,to=1~20|tag_other_tel"`
+	Tel  string `valid:"phone|tag_other_phone,to=1~20|tag_other_tel,either=9"`
 }
 
 var (
@@ -128,6 +128,12 @@ func c16Outer(rng *rand.Rand, depth int) *C16Outer {
 	if rng.Intn(3) != 0 {
 		in := c16Inner(rng)
 		o.ReqM = map[string]*C16Inner{"m": &in}
+		if o.InP != nil && rng.Intn(3) == 0 {
+			o.ReqM["m"] = o.InP // one object reached twice (a DAG, not a cycle): it is judged at both places
+		}
+	}
+	if len(o.Oths) > 0 && rng.Intn(4) == 0 {
+		o.Oths = append(o.Oths, o.Oths[0]) // the same pointer twice in one slice
 	}
 	return o
 }
@@ -440,8 +446,11 @@ func c16Case(res *core.Result, rng *rand.Rand, idx int) {
 	// route
 	var in interface{} = o
 	top := "ptr"
-	if unscoped == nil && rng.Intn(5) == 0 {
+	if unscoped == nil && rng.Intn(3) == 0 {
 		top, in = "slice", []*C16Outer{o, c16Outer(rng, 1)}
+		if rng.Intn(3) == 0 {
+			top, in = "slice3", []*C16Outer{o, c16Outer(rng, 1), c16Outer(rng, 0)}
+		}
 	}
 	nScoped := 0
 	for _, m := range []map[string]string{scOuter, scInner, scOther, scBare} {
